@@ -123,7 +123,16 @@ let eval inp obs =
   let header, bts = (match groups with h :: r -> h, r | [] -> failwith "empty") in
   let h = parse_header header in
   let stop_mode = List.exists (fun g -> match g with ["S"; _] -> true | _ -> false) bts in
-  let bts = List.filter (fun g -> match g with ["S"; _] -> false | _ -> true) bts in
+  (* "O <flags>": the processor is built without optional callbacks (r: EventCallback.Released,
+     c: CheckParents).  The Released wrapper of New still releases the semaphore and the buffer
+     still sets its flags: the model is unchanged, its Released / CheckParents entries (and the
+     process-entry marker of rejected events, which the harness can only see through Released)
+     are projected out of the observation.  Without Released lines only the far-future clause of
+     the specification can be evaluated on the log; the semaphore samples are still compared. *)
+  let flags = String.concat "" (filter_map (fun g -> match g with ["O"; f] -> Some f | _ -> None) bts) in
+  let no_released = String.contains flags 'r' and no_check = String.contains flags 'c' in
+  let bts = List.filter (fun g -> match g with ["S"; _] | ["O"; _] -> false | _ -> true) bts in
+  let h = if no_check then { h with tc = [] } else h in
   let gctr = ref 0 in
   let bs = List.map (parse_batch gctr) bts in
   let size_of b = (match List.find_opt (fun x -> x.bid = b) bs with Some x -> List.length x.perm | None -> max_int) in
@@ -184,7 +193,12 @@ let eval inp obs =
     end in
   let sq = prun_tbl h.tc h.tp h.capn h.caps h.limn h.lims h.h0 steps in
   let sf = pstep_run (tbl_check h.tc) (tbl_process h.tp) h.capn h.caps h.limn h.lims sq SStop in
-  let toks s = filter_map tok_of_pout (List.rev (plog s)) in
+  let bad_gs = List.concat (List.map (fun x -> filter_map (fun e -> if e.p_bad then Some (tok_of_n e.pg) else None) x.bt.b_events) bs) in
+  let project toks = List.filter (fun t ->
+      not ((no_released && String.length t > 1 && String.sub t 0 2 = "R.")
+           || (no_released && String.length t > 1 && String.sub t 0 2 = "A." && List.mem (String.sub t 2 (String.length t - 2)) bad_gs)
+           || (no_check && String.length t > 1 && String.sub t 0 2 = "C."))) toks in
+  let toks s = project (filter_map tok_of_pout (List.rev (plog s))) in
   let pre = toks sq in
   let all = toks sf in
   let rec drop k l = if k = 0 then l else match l with _ :: r -> drop (k - 1) r | [] -> [] in
@@ -202,9 +216,21 @@ let eval inp obs =
     c15_first_failure h.limn h.h0 btl refused_n lq l qn qs sn ss m w in
   let spec_ok, note =
     if not parsed then Some false, "unparsable-observation" else
+    if no_released then begin
+      (* still decidable without Released lines: far-future, and "zero after Stop once every accepted
+         batch is done" (the wrapper of New must release the semaphore whether or not anybody listens) *)
+      let all_done = List.for_all (fun x -> List.mem x.bid refused || List.mem x.bid zs) bs in
+      if not (p4_walk (all_events btl) h.limn h.h0 l l) then Some false, "spec-clause=4"
+      else if all_done && (tok_of_n sn <> "0" || tok_of_n ss <> "0") then Some false, "spec-clause=21"
+      else Some true, "" end else
     let f = if hasq then check lq l qn qs sn ss m w else check l l sn ss sn ss m w in
     if tok_of_n f = "0" then Some true, "" else Some false, "spec-clause=" ^ tok_of_n f in
-  let mparse = (try Some (parse_obs size_of batch_of_g mobs) with _ -> None) in
+  (* the model's own output is checked against the full specification, unprojected *)
+  let full s = filter_map tok_of_pout (List.rev (plog s)) in
+  let fpre = full sq and fall = full sf in
+  let mfull = fpre @ (if hasq || not stop_mode then [qtok] else []) @ drop (List.length fpre) fall @ [stok]
+              @ (if warned sf then ["W"] else []) @ ["M.1"] in
+  let mparse = (try Some (parse_obs size_of batch_of_g mfull) with _ -> None) in
   let model_spec_ok =
     (match mparse with
      | Some (lq, l, (qn, qs), (sn, ss), m, w, _, _, _, hq, _) ->
